@@ -129,7 +129,7 @@ func c54Backend(x *e2e.Exchange) e2e.Action {
 }
 
 func c54(r *vkit.Run) {
-	r.SetRule("full in-process BFE with mod_compress (GZIP rule for one host, BROTLI for another, no rule for a third); requests with 22 Accept-Encoding shapes (absent, empty, q-values incl. q=0, '*', case variants, look-alikes x-gzip/gzipx) x GET/HEAD x HTTP/1.0/1.1; backend bodies 0 B..2 MB (compressible text, random bytes, already gzip-encoded with Content-Encoding) framed by Content-Length or chunked, statuses 200/206+Content-Range/204/304/404; the client byte stream (case + pipelined probe) is parsed strictly, the body is decompressed with compress/gzip or andybalholm/brotli as announced and compared with the backend body; the announced coding must be acceptable under RFC 7231 5.3.4. Non-trivial = response was compressed by bfe; distinct = axis tuple. GENERATED ACCEPT-ENCODING FAMILY (c54ae.go): products with a GZIP rule, a BROTLI rule, both rules matching every request in either order (first rule decides) and a product whose GZIP rule matches only paths ending in /gz (BROTLI otherwise); values built from the RFC 7231 5.3.4 grammar around the product's codings: OWS (SP, HTAB) before/after ';' and around ',', 'q'/'Q', qvalues 0 0. 0.0 0.000 0.001 0.5 0.9 1 1. 1.0 1.000, non-grammar weights (1.5 -1 abc empty 0.0000 2 1.001 .5), '*' with/without q=0, identity;q=0, the coding listed twice, look-alikes (brotli x-gzip gzipp br2 xbr x-br ...), upper/mixed-case codings, empty list elements, the list split over two field lines; biased to 'rule coding refused + another compressible coding accepted'. Reference model from RFC 7231 5.3.4/5.3.1 + RFC 7230 3.2.2/7 (c54ae.go): acceptable = no field, or listed with every q>0, or unlisted and '*' with q>0; not acceptable = field present without the coding and without '*', every listing q=0, or unlisted and '*' q=0; counted but NOT judged ('either', RFC silent): coding (or deciding '*') listed with both q=0 and q>0, listing with a weight outside the grammar, malformed element mentioning the coding. One-sided oracle (property: 'only if the request accepted that encoding'): encoded with X while X is not acceptable = violation; an acceptable coding left uncompressed is counted, not judged. Inconclusive if a grammar shape, a product kind's compressed/pass-through outcome, or the refused-rule-coding-with-other-accepted region was never observed")
+	r.SetRule("full in-process BFE with mod_compress (GZIP rule for one host, BROTLI for another, no rule for a third); requests with 22 Accept-Encoding shapes (absent, empty, q-values incl. q=0, '*', case variants, look-alikes x-gzip/gzipx) x GET/HEAD x HTTP/1.0/1.1; backend bodies 0 B..2 MB (compressible text, random bytes, already gzip-encoded with Content-Encoding) framed by Content-Length or chunked, statuses 200/206+Content-Range/204/304/404; the client byte stream (case + pipelined probe) is parsed strictly, the body is decompressed with compress/gzip or andybalholm/brotli as announced and compared with the backend body; the announced coding must be acceptable under RFC 7231 5.3.4. Non-trivial = response was compressed by bfe; distinct = axis tuple. GENERATED ACCEPT-ENCODING FAMILY (c54ae.go): products with a GZIP rule, a BROTLI rule, both rules matching every request in either order (first rule decides) and a product whose GZIP rule matches only paths ending in /gz (BROTLI otherwise); values built from the RFC 7231 5.3.4 grammar around the product's codings: OWS (SP, HTAB) before/after ';' and around ',', 'q'/'Q', qvalues 0 0. 0.0 0.000 0.001 0.5 0.9 1 1. 1.0 1.000, non-grammar weights (1.5 -1 abc empty 0.0000 2 1.001 .5), '*' with/without q=0, identity;q=0, the coding listed twice, look-alikes (brotli x-gzip gzipp br2 xbr x-br ...), upper/mixed-case codings, empty list elements, the list split over two field lines; biased to 'rule coding refused + another compressible coding accepted'. Reference model from RFC 7231 5.3.4/5.3.1 + RFC 7230 3.2.2/7 (c54ae.go): acceptable = no field, or listed with every q>0, or unlisted and '*' with q>0; not acceptable = field present without the coding and without '*', every listing q=0, or unlisted and '*' q=0; counted but NOT judged ('either', RFC silent): coding (or deciding '*') listed with both q=0 and q>0, listing with a weight outside the grammar, malformed element mentioning the coding. One-sided oracle (property: 'only if the request accepted that encoding'): encoded with X while X is not acceptable = violation; an acceptable coding left uncompressed is counted, not judged. Inconclusive if a grammar shape, a product kind's compressed/pass-through outcome, or the refused-rule-coding-with-other-accepted region was never observed. INTERFERENCE FAMILY (c54abort.go): products with a GZIP resp. BROTLI rule at three levels chosen by the path (quality 1/flush 256, 5/512, 9/4096) on clusters with CancelOnClientClose on and off (TimeoutReadClient 10 min), own backend. A round = 1..3 ABORTERS (the backend sends the head and 16..48 KB of the body and waits; the client reads up to the end of the response head or up to 1500 body bytes and goes away: FIN + close 0.3 s later / RST / plain close; then the backend sends the rest) together with well-behaved requests at the same host and level whose bodies (700 B..100 KB, Content-Length or chunked) carry the request id and the offset in every line: 0..2 concurrently with the aborters, then, as soon as bfe has dropped the aborted exchanges (its backend connection closed), a burst of 10..12 and a burst of 2..4 concurrent ones; 12 rounds run in parallel. Oracle unchanged and for the well-behaved requests only: the client stream parses, the body decodes as announced to exactly the backend's body (what an aborter receives is not judged). SLOW-RESPONSE cases (same oracle, no aborter): clusters with CancelOnClientClose whose TimeoutReadClient (400 ms, the time a client gets to send its request) is shorter than a 1.6 s pause the backend makes in the middle of the body; the client just keeps reading. Inconclusive if bfe's close watcher never fired (bfe counter), or a coding x cancel-on/off x abort point, an abort mode, a level or a phase was never observed")
 	bs := e2e.NewBackendSet()
 	defer bs.Close()
 	be := bs.New("b1", c54Backend)
